@@ -102,7 +102,7 @@ class _Driver:
 
 class TpGenSub(Sub):
     name = "tpgen"
-    budget = {"quick": 16000, "thorough": 200000}
+    budget = {"quick": 10000, "thorough": 150000}
     rule = ("closed-loop request histories: each request is one of ACK/STALL/NRDY/ERDY strobed in a ready cycle "
             "(pulse, or held until done as the stream endpoint does), with address/endpoint/retry/sequence values "
             "that differ before and after the strobe cycle, and a header-queue ready delay of 0..7 cycles; oracle: "
